@@ -134,6 +134,7 @@ def decide(run, ob, family, op, params, ins, spec, k=10, timeout=60, drop=(), mo
         path = run.write_replay(ob, dict(kind="honest-rejected", cx=cx_args(family, op, params, ins, k)))
         return ob.set(VIOLATION, f"real MockProver rejects the honest witness of {op} {params} on admissible inputs {ins}", replay=path)
     e = csmt.Enc(system, drop=drop)
+    e.extra = d.get("extra", {})
     chain_note = ""
     try:
         if ff:
@@ -149,6 +150,14 @@ def decide(run, ob, family, op, params, ins, spec, k=10, timeout=60, drop=(), mo
                 recs = ffchain.run_chain(e, ob, d["extra"], timeout=timeout)
                 ob.sample_chain = recs[:8]
                 e.chain_records = recs
+                # the raw modular rows of the groups (implied by nothing the hypotheses say about the
+                # private quotient cells): kept aside; used when searching for forged assignments so that
+                # models respect them, not needed for the unsat direction
+                n0 = len(e.lines)
+                for g in e.skipped:
+                    e.constraint(g["poly"], True)
+                e.raw_ff_lines = e.lines[n0:]
+                del e.lines[n0:]
             except ffchain.ChainFail as cf:
                 # the chained argument does not go through: fall back to the raw modular rows and look
                 # for a forged assignment directly (a sat answer is replayed; anything else is inconclusive)
@@ -190,11 +199,35 @@ def decide(run, ob, family, op, params, ins, spec, k=10, timeout=60, drop=(), mo
     known = core.load_known()
     base_key = ob.key
     known_hits, known_replay = [], None
-    for rnd in range(8):
+    # Bug-finding pre-pass: with the INPUT instance cells (and every product of pinned cells) fixed to
+    # their honest values the search for a forged output/witness is a much smaller problem; a model found
+    # here goes through the same exact re-check and replay as any other. unsat/unknown here decides
+    # nothing: the unrestricted query below is the one whose unsat means HOLDS.
+    in_names = {a for a in Iat if not isinstance(a, int)}
+    seed_pins = []
+    if in_names:
+        pinned_vals = {a: hon_exact[a] for a in in_names if a in hon_exact}
+        for it in e.order:
+            if it[0] == "mul" and all(isinstance(x, int) or x in pinned_vals for x in (it[2], it[3])):
+                pinned_vals[it[1]] = hon_exact[it[1]]
+        seed_pins = [f"(assert (= {n} {v}))" for n, v in pinned_vals.items()]
+    phase = "seeded" if seed_pins else "full"
+    rnd = -1
+    while rnd < 8:
+        rnd += 1
         atoms = names + [it[1] for it in e.order]
-        r = solvers.solve(e.text(extra), timeout=timeout, get_values=atoms)
-        ob.queries += 1
-        ob.solver_s += r.time_s
+        if phase == "seeded":
+            r = solvers.solve(e.text(extra + seed_pins + getattr(e, "raw_ff_lines", [])), timeout=max(10, timeout // 3), get_values=atoms)
+            ob.queries += 1
+            ob.solver_s += r.time_s
+            if r.status != "sat":
+                phase = "full"
+                rnd = -1
+                continue
+        else:
+            r = solvers.solve(e.text(extra), timeout=timeout, get_values=atoms)
+            ob.queries += 1
+            ob.solver_s += r.time_s
         if r.status == "unsat":
             if known_hits:
                 # everything outside the listed known-finding classes holds
@@ -207,6 +240,9 @@ def decide(run, ob, family, op, params, ins, spec, k=10, timeout=60, drop=(), mo
             return ob.set(INCONCLUSIVE, f"solver: {r.status} {r.raw[:200]} {r.per_solver} {chain_note}")
         model = r.model
         assign = {n: model.get(n, 0) % P for n in names}
+        assign = e.repair_model(assign)
+        for n_ in names:
+            model[n_] = assign[n_]
         cls_assign = {c: assign[n] for c, n in e.vars.items()}
         for c in system.used_classes():
             cls_assign.setdefault(c, honest.get(c, 0))
@@ -249,6 +285,11 @@ def decide(run, ob, family, op, params, ins, spec, k=10, timeout=60, drop=(), mo
                 return ob.set(INCONCLUSIVE, f"exact counterexample did not replay on MockProver: {res} {err}")
             if r2.status != "unsat":
                 return ob.set(INCONCLUSIVE, f"ground re-check: {r2.status}")
+        if not wrong and bad and getattr(e, "raw_ff_lines", None):
+            # spurious with respect to the dropped raw foreign-field rows: add them and search again
+            e.lines += e.raw_ff_lines
+            e.raw_ff_lines = []
+            continue
         if not wrong and bad:
             return ob.set(INCONCLUSIVE, f"model violates real constraints {bad[:2]} but no abstract product is wrong (encoder bug?)")
         # refine: pin wrong products linearly in each operand
